@@ -96,6 +96,9 @@ func (x *ctx) runCase(c Case, o *vlib.Oracle) {
 	a := bytesArgs(c)
 	key := c.Op + "|" + strings.Join(c.Args, "|")
 	useOracle := c.Oracle && o != nil
+	if c.Op != "legacy" {
+		countShare(c.Op, useOracle)
+	}
 	switch c.Op {
 	case "ecdsa": // pk sig msg
 		var real bool
@@ -214,6 +217,7 @@ func (x *ctx) runCase(c Case, o *vlib.Oracle) {
 		if real != ref {
 			x.prop(c, fmt.Sprintf("btc.SchnorrVerify=%v but BIP340 verification is %v", real, ref))
 		}
+		x.mirrorCheck(c, a[0], a[1], a[2], real)
 		if useOracle {
 			rep := strings.Fields(o.MustAsk("schnorr " + strings.Join(c.Args, " ")))
 			if len(rep) != 2 || rep[0] != boolStr(real) {
@@ -308,7 +312,10 @@ func (x *ctx) runCase(c Case, o *vlib.Oracle) {
 		if len(a[0]) == 32 && len(a[1]) == 32 {
 			ref := refRFC6979(a[0], a[1], cnt)
 			if !bytes.Equal(ref, out[:]) {
-				x.prop(c, "RFC6979_Nonce="+hx(out[:])+" but RFC 6979 §3.2 gives "+hx(ref))
+				x.prop(c, "RFC6979_Nonce="+hx(out[:])+" but RFC 6979 §3.2 (libsecp256k1 variant: h1 = the 32 hash bytes, unreduced) gives "+hx(ref))
+			}
+			if cnt == 0 {
+				x.noteHashGeN("nonce", a[0], a[1], out[:])
 			}
 		}
 		if useOracle {
@@ -355,6 +362,12 @@ func (x *ctx) runCase(c Case, o *vlib.Oracle) {
 		}
 	case "recov": // r s msg recid(1 byte)
 		x.runRecov(c, a, o, useOracle, key)
+	case "noncevec": // prv msg counter(1 byte) expected-nonce   (external vector)
+		x.runNonceVec(c, a, o, useOracle, key)
+	case "schnorre": // pk sig e32   (SchnorrVerify's steps with an injected challenge)
+		x.runSchnorrE(c, a, o, useOracle, key)
+	case "ecmneg": // A mag ng   (XYZ.ECmult with na = -mag)
+		x.runEcmNeg(c, a, o, useOracle, key)
 	case "legacy": // op-name + args: a witness of a repaired defect; the current code must refuse it
 		x.runLegacy(c, o, key)
 	default:
@@ -528,6 +541,7 @@ func (x *ctx) runSignRfc(c Case, a [][]byte, o *vlib.Oracle, useOracle bool, key
 	}
 	d := new(big.Int).SetBytes(a[0])
 	x.checkOwnSig(c, d, a[1], rr, ss, 0, false)
+	x.noteHashGeN("signrfc", a[0], a[1], nil)
 	if len(a[0]) == 32 && len(a[1]) == 32 {
 		k := new(big.Int).SetBytes(refRFC6979(a[0], a[1], 0))
 		if k.Sign() > 0 && k.Cmp(refN) < 0 {
@@ -632,6 +646,10 @@ func main() {
 		"the reference group Base/Secp is the group the specs are written in; its group law is PROVED (Props.C03.reference_curve_group_law: Secp.add = addition of Mathlib's WeierstrassCurve.Affine.Point over ZMod p, p and n prime by Pratt certificates)",
 		"Sign does not refuse R = 0 mod n (needs a nonce k with x(kG) = n: a discrete logarithm); sign_verify / sign_canonical / recover_sign carry the hypothesis R != 0",
 		"crypto/rand inside EcdsaSign (random-nonce mode) is not controlled: the nonce is derived from the output",
+		"the hooks btc.EC_Verify, btc.Schnorr_Verify, btc.Check_PayToContract (lib/btc/ecdsa.go) are nil: model, theorems and tie are for the pure-Go path; client/speedups/*.go sets them to libsecp256k1 cgo wrappers which then REPLACE all three verify observables — not covered",
+		"only the platform's lib/secp256k1 field implementation is run (field_5x52.go on amd64); the field_10x26.go build selected by build tag is not exercised",
+		"RFC 6979 means libsecp256k1's variant of §3.2: h1 = the 32 message-hash bytes fed to HMAC unreduced (no bits2octets); external vectors exist only for hash < n (lib/btc/hash_test.go), for hash >= n only code = model = reference-of-the-variant is checked",
+		"btc.SchnorrVerify with a challenge e > n (XYZ.ECmult gets the NEGATIVE scalar n-e; probability about 2^-128 per verification) cannot be driven through SchnorrsigChallenge (plain func over SHA-256); it is exercised through SchnorrVerify's own steps with an injected challenge (ops schnorre, ecmneg) and the mirror is checked against btc.SchnorrVerify on every schnorr case; that the real SchnorrVerify composes these steps the same way for e > n is assumed",
 	}
 	if r.Replay != "" {
 		b, err := os.ReadFile(r.Replay)
@@ -682,19 +700,23 @@ func main() {
 			shards = append(shards, shard{kind, oracle, n, g.Fork()})
 		}
 	}
-	// oracle-checked (expensive: the Lean reference does ≈40 ms per scalar multiplication)
-	add("ecdsa", true, r.N(90, 2000), 10)
-	add("schnorr", true, r.N(60, 1200), 10)
-	add("tweak", true, r.N(60, 1200), 10)
-	add("sign", true, r.N(14, 400), 4)
-	add("signrfc", true, r.N(10, 200), 5)
+	// oracle-checked (expensive: the Lean reference does ≈40 ms per scalar multiplication, so the cost is the
+	// Lean EC arithmetic itself — batching requests per line would not help); the share that goes through the
+	// Lean model is reported per op in the evidence (model_tie_share)
+	add("ecdsa", true, r.N(180, 4000), 10)
+	add("schnorr", true, r.N(120, 3000), 10)
+	add("tweak", true, r.N(120, 2000), 10)
+	add("sign", true, r.N(24, 400), 4)
+	add("signrfc", true, r.N(20, 200), 5)
 	add("signrnd", true, r.N(6, 100), 3)
-	add("ssign", true, r.N(8, 200), 2)
+	add("ssign", true, r.N(16, 200), 2)
 	add("pub", true, r.N(200, 5000), 50)
 	add("psig", true, r.N(800, 15000), 200)
 	add("nonce", true, r.N(60, 600), 20)
 	add("hmac", true, r.N(60, 600), 20)
-	add("recov", true, r.N(24, 500), 4)
+	add("recov", true, r.N(40, 500), 4)
+	add("schnorre", true, r.N(48, 600), 8)
+	add("ecmneg", true, r.N(48, 600), 8)
 	// real vs reference only (cheap): the property's own predicate on many more inputs
 	add("ecdsa", false, r.N(2000, 30000), 250)
 	add("schnorr", false, r.N(1200, 20000), 200)
@@ -704,6 +726,8 @@ func main() {
 	add("signrnd", false, r.N(100, 1500), 50)
 	add("ssign", false, r.N(100, 1500), 50)
 	add("recov", false, r.N(600, 10000), 100)
+	add("schnorre", false, r.N(1500, 20000), 250)
+	add("ecmneg", false, r.N(1500, 20000), 250)
 	// sweeps (sweep.go): long incremental runs of valid inputs + their minimal invalid sibling, for defects
 	// that need 10^4..10^5 inputs to show (un-normalised field elements read by IsOdd/Equals)
 	add("sweep-tweak", false, r.N(120000, 1500000), 4000)
@@ -763,8 +787,9 @@ func main() {
 	wg.Wait()
 	r.Extra["corpus_cases"] = ncorpus
 	r.Extra["oracle_workers"] = workers
+	r.Extra["model_tie_share"] = shareReport()
 	r.Finish(
-		"corpus (defect witnesses, boundary scalars, BIP340 CSV rows, RFC6979/HMAC and signature vectors from the repo's tests) then a structured generator: valid triples from random keys in all key formats, then one mutation per case (bit flips, r/s in {0,n,n+k,p,2^256-1,s+n,n-s}, 33-byte and padded integers, DER container damage, x>=p, y>=p, non-residue x, off-curve, hybrid parity, wrong lengths, infinity results, own-arithmetic forgeries, algebraic triples with small s offered as s+n < 2^256, triples solved for a chosen nonce point with n <= x(R) < p (r = x-n) and their unreduced / negated-key / high-S / bit-flipped siblings, twin nonce points x and x+n sharing one r, public-key recovery on arbitrary (r, s, hash, recid) with the recovered triple offered back to the verifier, signing inputs solved for short R / short S with the top bit set); then incremental sweeps (sweep.go: valid tweak / ECDSA / BIP340 inputs advanced by one point addition per case, each with its minimal invalid sibling; counted as evaluations with an empty distinct key); distinct = distinct (op, arguments)",
+		"corpus (defect witnesses, boundary scalars, BIP340 CSV rows, RFC6979/HMAC and signature vectors from the repo's tests) then a structured generator: valid triples from random keys in all key formats, then one mutation per case (bit flips, r/s in {0,n,n+k,p,2^256-1,s+n,n-s}, 33-byte and padded integers, DER container damage, x>=p, y>=p, non-residue x, off-curve, hybrid parity, wrong lengths, infinity results, own-arithmetic forgeries, algebraic triples with small s offered as s+n < 2^256, triples solved for a chosen nonce point with n <= x(R) < p (r = x-n) and their unreduced / negated-key / high-S / bit-flipped siblings, twin nonce points x and x+n sharing one r, public-key recovery on arbitrary (r, s, hash, recid) with the recovered triple offered back to the verifier, signing inputs solved for short R / short S with the top bit set, RFC6979 nonces for message hashes 0 / n+k / ff..ff, the repository's RFC6979 vectors with their expected outputs (noncevec), SchnorrVerify's steps with an injected challenge e >= n on valid / shifted-by-n / odd-R / bit-flipped signatures (schnorre) and XYZ.ECmult with negative scalars (ecmneg)); then incremental sweeps (sweep.go: valid tweak / ECDSA / BIP340 inputs advanced by one point addition per case, each with its minimal invalid sibling; counted as evaluations with an empty distinct key); distinct = distinct (op, arguments)",
 		"real gocoin functions vs an independent math/big reference (property predicate) on every case; a subset also through the Lean model and Lean spec (oracle_c03): real=model is the tie, model=spec is what the iff-theorems state")
 }
 
